@@ -11,6 +11,7 @@ from z3 import z3util
 from .classtable import (Ty, TBool, TInt, TReal, TStr, TDT, TVal, TNode, TSeq, TSet, TOpt, TEnum, TMap)
 from .contracts import CONTRACTS, SPECS, Contract, SpecFn, parse_ty, resolve_qualname, unwrap_function
 from .core import Obligation, Explorer
+from . import recfuns
 from .values import (SV, Rec, Box, Exc, BoundMethod, VirtualMethod, Closure, FunSym, Opaque, PyRaise,
                      ReturnSig, PathCut, Untranslatable, Infeasible, NeedFork, is_concrete)
 from .interp_expr import Frame
@@ -23,11 +24,41 @@ class ContractMixin:
     def obligation(self, name, kind, tag, goal, node=None, exact=None):
         goal = self.bterm(goal) if isinstance(goal, bool) else goal
         st = self.ex.st
-        ob = Obligation(name, kind, tag, list(self.ex.base_hyps) + list(st.pc), goal, tuple(st.sig),
+        defs = self.auto_unfold(goal)
+        ob = Obligation(name, kind, tag, list(self.ex.base_hyps) + list(st.pc) + defs, goal, tuple(st.sig),
                         exact=(not st.inexact) if exact is None else exact,
                         where=f'line {getattr(node, "lineno", "?")}')
         self.obligations.append(ob)
         return ob
+
+    def auto_unfold(self, goal, limit=6):
+        """definitional instances  f(args) == body[args]  for the spec-function applications that occur
+        in a goal (one level): valid by definition, and they save the solver the first unfolding"""
+        out = []
+        try:
+            by_decl = {}
+            for sp in SPECS.values():
+                if sp.z3fun is not None and sp.defined and sp.name in self.spec_defs:
+                    by_decl[sp.z3fun.get_id()] = sp
+            if not by_decl:
+                return out
+            seen = set()
+            stack = [goal]
+            while stack and len(out) < limit:
+                t = stack.pop()
+                if not z3.is_app(t) or t.get_id() in seen:
+                    continue
+                seen.add(t.get_id())
+                sp = by_decl.get(t.decl().get_id())
+                if sp is not None:
+                    params, tys, rty = self.spec_sig(sp)
+                    consts = [z3.Const(p, ty.z3sort()) for p, ty in zip(params, tys)]
+                    inst = z3.substitute(self.spec_defs[sp.name], *zip(consts, t.children()))
+                    out.append(t == inst)
+                stack.extend(t.children())
+        except Exception:
+            return out
+        return out
 
     # ------------------------------------------------------------------ clause evaluation
     def eval_clause(self, fnode, globs, env):
@@ -191,7 +222,7 @@ class ContractMixin:
         t = arms[-1][1]
         for cond, val in reversed(arms[:-1]):
             t = z3.If(cond, val, t)
-        z3.RecAddDefinition(f, consts, t)
+        recfuns.define(f, consts, t)
         self.spec_defs[sp.name] = t
         if sub.obligations:
             bad = [o for o in sub.obligations if o.kind != 'pre']
@@ -202,6 +233,12 @@ class ContractMixin:
         params, tys, rty = self.spec_sig(sp)
         if kwargs:
             raise Untranslatable('keyword arguments to a spec function')
+        if sp.inline:
+            self.specs_used.add(sp.name)
+            env = {}
+            for p_, a, t in zip(params, args, tys):
+                env[p_] = a if isinstance(a, SV) and a.ty == t else SV(self.term(a, t), t)
+            return self.eval_clause(sp.node, sp.globs, env)
         f = self.declare_spec(sp)
         if not sp.defined and not sp.opaque:
             self.define_spec(sp)
@@ -305,7 +342,7 @@ class ContractMixin:
             step = z3.Concat(z3.Unit(head_body), rest)
             if nfilt is not None:
                 step = z3.If(z3.substitute(nfilt, (px, s[0])), step, rest)
-            z3.RecAddDefinition(f, [s] + ph, z3.If(n == 0, z3.Empty(rsort), step))
+            recfuns.define(f, [s] + ph, z3.If(n == 0, z3.Empty(rsort), step))
             _AUX_COMP[key] = f
         return _AUX_COMP[key], caps
 
@@ -313,6 +350,11 @@ class ContractMixin:
         """any(...)/all(...) over a comprehension as ONE recursive function (map and fold fused):
         any_k(s, caps) = len(s) > 0 and (body(s[0]) or any_k(s[1:], caps))"""
         _, body, filt, x, ety, rty, seqterm = meta
+        body = recfuns.bool_simplify(body)
+        if not is_any:
+            # canonical form: all(P) is not any(not P), so that both folds over the same body are one function
+            nb = body.arg(0) if z3.is_not(body) else z3.Not(body)
+            return z3.Not(self.fused_fold(True, ('comp', nb, filt, x, ety, rty, seqterm)))
         terms = [body] + ([filt] if filt is not None else [])
         caps = []
         seen = set()
@@ -341,7 +383,7 @@ class ContractMixin:
                 hf = z3.substitute(nfilt, (px, s[0]))
                 hb = z3.And(hf, hb) if is_any else z3.Implies(hf, hb)
             step = z3.Or(hb, rest) if is_any else z3.And(hb, rest)
-            z3.RecAddDefinition(f, [s] + ph, z3.If(n == 0, z3.BoolVal(not is_any), step))
+            recfuns.define(f, [s] + ph, z3.If(n == 0, z3.BoolVal(not is_any), step))
             _AUX_COMP[key] = f
         return _AUX_COMP[key](seqterm, *caps)
 
